@@ -120,7 +120,7 @@ func runC28(c *Ctx) {
 						if id, ok := call.Fun.(*ast.Ident); ok && id.Name == "make" && len(call.Args) == 2 {
 							if lc, ok := call.Args[1].(*ast.CallExpr); ok {
 								if lid, ok := lc.Fun.(*ast.Ident); ok && lid.Name == "len" {
-									if o := objOf(info, lc.Args[0]); o != nil && o.Name() == "reqs" {
+									if o := objOf(info, lc.Args[0]); o != nil && isSliceParam(fn.Obj, o) {
 										sized = true
 										resps = info.ObjectOf(x.Lhs[0].(*ast.Ident))
 									}
@@ -161,7 +161,9 @@ func runC28(c *Ctx) {
 				return false
 			}
 			o := objOf(info, recvExpr(call))
-			return o != nil && o.Name() == "conn"
+			// the connection being served: handleConn's parameter
+			ps := hc.Obj.Type().(*types.Signature).Params()
+			return o != nil && ps.Len() == 1 && o == types.Object(ps.At(0))
 		}
 		read := func(n ast.Node) bool {
 			call, ok := n.(*ast.CallExpr)
@@ -188,4 +190,15 @@ func runC28(c *Ctx) {
 		})
 		c.Check(goes == 0, "serial-per-connection", "requests of one connection are handled serially (no goroutine per frame that could reorder responses)", c.P.Pos(hc.Decl.Pos()), "go statement in the connection loop")
 	})
+}
+
+// isSliceParam: o is a slice-typed parameter of fn.
+func isSliceParam(fn *types.Func, o types.Object) bool {
+	ps := fn.Type().(*types.Signature).Params()
+	for i := 0; i < ps.Len(); i++ {
+		if _, isSlice := ps.At(i).Type().Underlying().(*types.Slice); isSlice && o == types.Object(ps.At(i)) {
+			return true
+		}
+	}
+	return false
 }
